@@ -155,8 +155,17 @@ def coq_eval(env, imports, body, name="cases", timeout=900):
         f.write("From GV Require Import %s.\n" % " ".join(imports))
         f.write("Set Printing Width 1000000.\nSet Printing Depth 100000000.\n")
         f.write(body)
+    def _big_stack():
+        # vm_compute recurses on the C stack: deep object graphs of the run-time model overflow the default 8 MB
+        import resource
+        try:
+            soft, hard = resource.getrlimit(resource.RLIMIT_STACK)
+            want = hard if hard != resource.RLIM_INFINITY else resource.RLIM_INFINITY
+            resource.setrlimit(resource.RLIMIT_STACK, (want, hard))
+        except (ValueError, OSError):
+            pass
     p = subprocess.run(["timeout", str(timeout), "coqc", "-Q", env.dir, "GV", fn], stdout=subprocess.PIPE,
-                       stderr=subprocess.STDOUT, text=True)
+                       stderr=subprocess.STDOUT, text=True, preexec_fn=_big_stack)
     for ext in (".v", ".vo", ".vok", ".vos", ".glob"):
         try:
             os.remove(fn[:-2] + ext)
